@@ -71,3 +71,37 @@ Proof.
   - exact (second_bind_is_refused_tcp v s e w D).
 Qed.
 Print Assumptions C11_a_bound_socket_cannot_be_bound_again.
+
+(* ---- over whole histories of binds and releases (end of Proofs/RegistryProofs.v) ---- *)
+Theorem C11_registry_is_a_partial_map_in_every_history :
+  forall evs st m, refines (fst st) m -> refines (fst (fst (arun st m evs))) (snd (arun st m evs)).
+Proof. exact registry_refines_a_partial_map. Qed.
+Print Assumptions C11_registry_is_a_partial_map_in_every_history.
+
+Theorem C11_at_most_one_socket_per_endpoint_in_every_history :
+  forall evs next0, uniq (fst (fst (arun ([], next0) (fun _ => None) evs))).
+Proof. exact registry_keys_stay_unique. Qed.
+Print Assumptions C11_at_most_one_socket_per_endpoint_in_every_history.
+
+Theorem C11_bind_is_exclusive :
+  forall st m s e, refines (fst st) m ->
+  let '(err, bound, _, _) := sim_bind (fst st) (snd st) s e in
+  (err = EC_OK -> m bound = None /\ astep st m (EvBind s e) bound = Some s) /\
+  (err <> EC_OK -> astep st m (EvBind s e) = m).
+Proof. exact bind_is_exclusive. Qed.
+Print Assumptions C11_bind_is_exclusive.
+
+Theorem C11_release_is_ones_own :
+  forall m s e st,
+  (m e = Some s -> astep st m (EvUnbind s e) e = None) /\
+  (m e <> Some s -> astep st m (EvUnbind s e) = m) /\
+  (forall x, ep_eqb e x = false -> astep st m (EvUnbind s e) x = m x).
+Proof. exact release_is_ones_own. Qed.
+Print Assumptions C11_release_is_ones_own.
+
+Theorem C11_unbind_of_the_model_is_reg_unbind :
+  forall w s e,
+  w_tcp_reg (unbind_tcp w s e) = reg_unbind (w_tcp_reg w) s e /\
+  w_udp_reg (unbind_udp w s e) = reg_unbind (w_udp_reg w) s e.
+Proof. exact unbind_is_reg_unbind. Qed.
+Print Assumptions C11_unbind_of_the_model_is_reg_unbind.
